@@ -482,7 +482,12 @@ def purge_world_modules():
 
 def runner_truth(runner):
     def names(lst):
-        return [' '.join(str(t).strip().split('\n')) for t, _ in lst]
+        out = []
+        for item in lst:
+            # (test, exc_info) pairs; unexpected successes are appended as bare tests
+            t = item[0] if isinstance(item, tuple) else item
+            out.append(' '.join(str(t).strip().split('\n')))
+        return out
     return {'ran': runner.ran, 'failures': names(runner.failures),
             'errors': names(runner.errors), 'skipped': len(runner.skipped),
             'import_errors': [e.module for e in runner.import_errors],
@@ -914,8 +919,9 @@ class Env:
             pre_all = pre
         for ln in pre_all.splitlines():
             try:
-                a_, b_, c_ = map(int, ln.strip().split())
-                info['noise_header_before_report'] = True
+                nums = list(map(int, ln.strip().split()))
+                if len(nums) in (3, 4):
+                    info['noise_header_before_report'] = True
             except ValueError:
                 pass
         info['tape'] = newtape
@@ -1013,12 +1019,15 @@ def execute(spec, options, sched_mode=None, knobs=None, defaults=None, label='ma
     return res
 
 
-def digest_of(res):
+def digest_of(res, norm=None):
     h = hashlib.sha256()
     h.update(repr(res.verdict).encode())
     h.update(repr(res.raised[:2] if res.raised else None).encode())
     h.update(json.dumps(res.trace).encode())
-    h.update(json.dumps(res.out).encode())
+    out = json.dumps(res.out)
+    if norm is not None:
+        out = norm(out)
+    h.update(out.encode())
     h.update(repr(res.sched['log']).encode())
     h.update(repr(res.sched['choices']).encode())
     return h.hexdigest()[:20]
